@@ -70,6 +70,7 @@ type IntNode struct {
 	pre                   int
 	exp                   int
 	untouched             bool
+	zeroPre               bool // the destination is created by zog (slice element, allocated pointer): untouched means zero
 }
 
 func newIntDeco(name string, deco, nt int) *IntNode {
@@ -154,6 +155,10 @@ func (n *IntNode) Input() (any, bool) {
 func (n *IntNode) Prep(mode int, dest any) {
 	d := dest.(*int)
 	if mode == Parse {
+		if n.zeroPre {
+			n.pre = 0
+			return
+		}
 		*d = n.pre
 	} else {
 		*d = n.N
@@ -254,6 +259,7 @@ type StrNode struct {
 	S                     string
 	pre, exp              string
 	untouched             bool
+	zeroPre               bool
 }
 
 // printable, non-space ASCII (whitespace-only strings are the subject of C04)
@@ -343,6 +349,10 @@ func (n *StrNode) Input() (any, bool) {
 func (n *StrNode) Prep(mode int, dest any) {
 	d := dest.(*string)
 	if mode == Parse {
+		if n.zeroPre {
+			n.pre = ""
+			return
+		}
 		*d = n.pre
 	} else {
 		*d = n.S
@@ -1051,6 +1061,10 @@ func forceMissing(k Node) {
 		x.El.Class = cMissing
 	case *StructNode:
 		x.Class = cMissing
+	case *SliceStructNode:
+		x.Class = cMissing
+	case *PtrStructNode:
+		x.El.Class = cMissing
 	}
 }
 
@@ -1095,6 +1109,234 @@ func (n *StructNode) structTestIss(path string, dest any) []Iss {
 		return []Iss{{path, n.TCode, "struct"}}
 	}
 	return nil
+}
+
+// ================= Slice of Struct, Pointer to Struct (destination type Inner) =================
+
+func markZeroPre(n Node) {
+	switch x := n.(type) {
+	case *IntNode:
+		x.zeroPre = true
+	case *StrNode:
+		x.zeroPre = true
+	case *StructNode:
+		for _, k := range x.Kids {
+			markZeroPre(k)
+		}
+	}
+}
+
+type SliceStructNode struct {
+	name      string
+	Req       bool
+	NT        int
+	K         int
+	Class     int // cMissing, cNil, cVal
+	Els       []*StructNode
+	untouched bool
+}
+
+func newSliceStruct(name string, req bool, nt int, classes []int, maxLen int, mkEl func(i int) *StructNode) *SliceStructNode {
+	n := &SliceStructNode{name: name, Req: req, NT: nt}
+	if nt >= 1 {
+		n.K = v.Int(name + ".min")
+	}
+	n.Class = classes[v.Choice(name+".class", len(classes))]
+	if n.Class == cVal {
+		k := v.Choice(name+".len", maxLen+1)
+		for i := 0; i < k; i++ {
+			el := mkEl(i)
+			markZeroPre(el)
+			n.Els = append(n.Els, el)
+		}
+	}
+	return n
+}
+
+// element schema: built from the first element description, or from a fresh one
+func (n *SliceStructNode) elSchema(proto *StructNode) *z.StructSchema { return proto.schema() }
+
+type sliceStructProto struct{ proto *StructNode }
+
+var ssProto = map[*SliceStructNode]*StructNode{}
+
+func (n *SliceStructNode) withProto(p *StructNode) *SliceStructNode { ssProto[n] = p; return n }
+
+func (n *SliceStructNode) Schema() z.ZogSchema { return n.schema() }
+func (n *SliceStructNode) schema() *z.SliceSchema {
+	s := z.Slice(ssProto[n].schema())
+	if n.NT >= 1 {
+		s = s.Min(n.K)
+	}
+	if n.Req {
+		s = s.Required()
+	}
+	return s
+}
+func (n *SliceStructNode) Input() (any, bool) {
+	switch n.Class {
+	case cMissing:
+		return nil, false
+	case cNil:
+		return nil, true
+	}
+	out := make([]any, len(n.Els))
+	for i, e := range n.Els {
+		out[i], _ = e.Input()
+	}
+	return out, true
+}
+func (n *SliceStructNode) Prep(mode int, dest any) {
+	d := dest.(*[]Inner)
+	if mode == Parse {
+		*d = nil
+		for _, e := range n.Els {
+			e.Prep(Parse, &Inner{})
+		}
+		return
+	}
+	xs := make([]Inner, len(n.Els))
+	for i, e := range n.Els {
+		e.Prep(Validate, &xs[i])
+	}
+	if n.Class != cVal {
+		xs = nil
+	}
+	*d = xs
+}
+func (n *SliceStructNode) Absent(mode int) bool {
+	if mode == Parse {
+		return n.Class == cMissing || n.Class == cNil
+	}
+	return len(n.Els) == 0
+}
+func (n *SliceStructNode) Ref(mode int, path string) []Iss {
+	n.untouched = false
+	if n.Absent(mode) {
+		n.untouched = true
+		if n.Req {
+			return []Iss{{path, "required", "slice"}}
+		}
+		return nil
+	}
+	var out []Iss
+	for i, e := range n.Els {
+		out = append(out, e.Ref(mode, joinPath(path, idx(i)))...)
+	}
+	if n.NT >= 1 && !(len(n.Els) >= n.K) {
+		out = append(out, Iss{path, "min", "slice"})
+	}
+	return out
+}
+func (n *SliceStructNode) DestOK(mode int, dest any) bool {
+	d := *dest.(*[]Inner)
+	if n.untouched {
+		return len(d) == 0
+	}
+	if len(d) != len(n.Els) {
+		return false
+	}
+	ok := true
+	for i, e := range n.Els {
+		ok = v.And(ok, e.DestOK(mode, &d[i]))
+	}
+	return ok
+}
+func (n *SliceStructNode) Holds(mode int, dest any) bool {
+	d := *dest.(*[]Inner)
+	if n.Absent(mode) {
+		return !n.Req
+	}
+	ok := true
+	if n.NT >= 1 {
+		ok = len(d) >= n.K
+	}
+	if len(d) != len(n.Els) {
+		return false
+	}
+	for i, e := range n.Els {
+		ok = v.And(ok, e.Holds(mode, &d[i]))
+	}
+	return ok
+}
+
+type PtrStructNode struct {
+	name      string
+	NotNil    bool
+	El        *StructNode // Class of El decides presence in Parse (cVal / cMissing / cNil)
+	IsNil     bool
+	nilDrawn  bool
+	nilChoice bool
+	untouched bool
+}
+
+func newPtrStruct(name string, notNil bool, el *StructNode) *PtrStructNode {
+	markZeroPre(el)
+	return &PtrStructNode{name: name, NotNil: notNil, El: el}
+}
+func (n *PtrStructNode) Schema() z.ZogSchema {
+	s := z.Ptr(n.El.schema())
+	if n.NotNil {
+		s = s.NotNil()
+	}
+	return s
+}
+func (n *PtrStructNode) Input() (any, bool) { return n.El.Input() }
+func (n *PtrStructNode) Prep(mode int, dest any) {
+	d := dest.(**Inner)
+	if mode == Parse {
+		*d = nil
+		n.El.Prep(Parse, &Inner{})
+		return
+	}
+	if !n.nilDrawn {
+		n.nilDrawn, n.nilChoice = true, v.Choice(n.name+".nil", 2) == 1
+	}
+	n.IsNil = n.nilChoice && !forcePtrNonNil
+	if n.IsNil {
+		*d = nil
+		return
+	}
+	x := &Inner{}
+	n.El.Prep(Validate, x)
+	*d = x
+}
+func (n *PtrStructNode) Absent(mode int) bool {
+	if mode == Parse {
+		return n.El.Class == cMissing || n.El.Class == cNil
+	}
+	return n.IsNil
+}
+func (n *PtrStructNode) Ref(mode int, path string) []Iss {
+	n.untouched = false
+	if n.Absent(mode) {
+		n.untouched = true
+		if n.NotNil {
+			return []Iss{{path, "not_nil", "struct"}}
+		}
+		return nil
+	}
+	return n.El.Ref(mode, path)
+}
+func (n *PtrStructNode) DestOK(mode int, dest any) bool {
+	d := *dest.(**Inner)
+	if n.untouched {
+		return d == nil
+	}
+	if d == nil {
+		return false
+	}
+	return n.El.DestOK(mode, d)
+}
+func (n *PtrStructNode) Holds(mode int, dest any) bool {
+	d := *dest.(**Inner)
+	if n.Absent(mode) {
+		return !n.NotNil
+	}
+	if d == nil {
+		return false
+	}
+	return n.El.Holds(mode, d)
 }
 
 // ---- comparing real results with the reference ------------------------------------------
